@@ -644,6 +644,11 @@ func (g *gen) spec(nops int, variant int) *Spec {
 			}
 		}
 		op.Responses = []RSpec{{Code: 200, Body: g.r.Chance(1, 2)}}
+		if g.r.Chance(1, 6) {
+			// an operation that documents no success code at all
+			op.Responses = []RSpec{{Code: 304}}
+			g.hit("response:no-success-code")
+		}
 		if g.r.Chance(1, 2) {
 			op.Responses[0].Headers = []PSpec{{Name: "X-Rate", GoName: "XRate", Type: "integer", Format: "int64"}}
 			g.hit("response:header")
